@@ -33,6 +33,7 @@ type Conn struct {
 
 	session    Session
 	locker     sync.Mutex
+	closed     bool
 	binarymime bool
 
 	lineLimitReader *lineLimitReader
@@ -178,7 +179,14 @@ func (c *Conn) Close() error {
 		c.session = nil
 	}
 
+	c.closed = true
 	return c.conn.Close()
+}
+
+func (c *Conn) isClosed() bool {
+	c.locker.Lock()
+	defer c.locker.Unlock()
+	return c.closed
 }
 
 // TLSConnectionState returns the connection's TLS connection state.
